@@ -69,13 +69,13 @@ impl Source for FileSystem {
         let path = self.path_of(DirEntry::File(id, ext));
         match fs::read(&path) {
             Ok(buf) => Ok(super::FileContent::Buffer(buf)),
-            Err(err) => Err(read_error(err, path)),
+            Err(err) => Err(read_error(err, path, false)),
         }
     }
 
     fn read_dir(&self, id: &str, f: &mut dyn FnMut(DirEntry)) -> io::Result<()> {
         let dir_path = self.path_of(DirEntry::Directory(id));
-        let entries = fs::read_dir(&dir_path).map_err(|err| read_error(err, dir_path))?;
+        let entries = fs::read_dir(&dir_path).map_err(|err| read_error(err, dir_path, true))?;
 
         let mut entry_id = id.to_owned();
 
@@ -138,7 +138,7 @@ impl fmt::Debug for FileSystem {
 }
 
 #[cold]
-pub fn read_error(err: io::Error, path: PathBuf) -> io::Error {
+pub fn read_error(err: io::Error, path: PathBuf, is_dir: bool) -> io::Error {
     #[derive(Debug)]
     struct Error {
         err: io::Error,
@@ -157,5 +157,12 @@ pub fn read_error(err: io::Error, path: PathBuf) -> io::Error {
         }
     }
 
-    io::Error::new(err.kind(), Error { err, path })
+    // A directory where a file is expected (or the reverse) means that the
+    // requested entry does not exist.
+    let kind = match path.metadata() {
+        Ok(meta) if meta.is_dir() != is_dir => io::ErrorKind::NotFound,
+        _ => err.kind(),
+    };
+
+    io::Error::new(kind, Error { err, path })
 }
